@@ -7,6 +7,7 @@ import (
 	"crypto/rand"
 	"io"
 	"runtime"
+	"sync"
 
 	"github.com/go-errors/errors"
 	"github.com/privacybydesign/gabi/big"
@@ -27,10 +28,13 @@ func GenerateConcurrent(bitsize int, stop chan struct{}) (<-chan *big.Int, <-cha
 	// this, so that we always stop all goroutines independent of whether the caller close()s stop
 	// or sends a struct{}{} to it.
 	stopped := make(chan struct{})
+	// stopped is closed at most once, whoever (the watcher below or a failing worker) comes first
+	var stopOnce sync.Once
+	closeStopped := func() { stopOnce.Do(func() { close(stopped) }) }
 	go func() {
 		select {
 		case <-stop:
-			close(stopped)
+			closeStopped()
 		case <-stopped: // stopped can also be closed by a goroutine that encountered an error
 		}
 	}()
@@ -42,9 +46,12 @@ func GenerateConcurrent(bitsize int, stop chan struct{}) (<-chan *big.Int, <-cha
 				// Pass stopped chan along; if closed, Generate() returns nil, nil
 				x, err := Generate(bitsize, stopped)
 				if err != nil {
-					errs <- err
-					close(stopped)
+					errs <- err // never blocks: errs has room for one error per worker
+					closeStopped()
 					return
+				}
+				if x == nil {
+					return // we have been told to stop
 				}
 
 				// Only send result and continue generating if we have not been told to stop
@@ -52,8 +59,12 @@ func GenerateConcurrent(bitsize int, stop chan struct{}) (<-chan *big.Int, <-cha
 				case <-stopped:
 					return
 				default:
-					ints <- x
-					continue
+				}
+				// The consumer may stop reading at any moment: never block on it after stopped is closed
+				select {
+				case <-stopped:
+					return
+				case ints <- x:
 				}
 			}
 		}()
